@@ -34,6 +34,11 @@ def main():
     except Exception as e:  # noqa: BLE001
         print("translate_z3tables refused:", e)
     try:
+        import translate_simptables as tst
+        write_if_changed(os.path.join(LEAN, "Claripy", "Gen", "SimpTables.lean"), tst.render(tst.translate()))
+    except Exception as e:  # noqa: BLE001
+        print("translate_simptables refused:", e)
+    try:
         import translate_shared as ts
         write_if_changed(os.path.join(LEAN, "Claripy", "Gen", "SharedState.lean"), ts.render(ts.translate(), ts.load_classes()))
     except Exception as e:  # noqa: BLE001
